@@ -189,7 +189,18 @@ func (b *Builder) MakeScript(a Action) ([]byte, []int, error) {
 		if len(a.V) > 0 {
 			data = []byte(a.V)
 		}
-		call(tok, "transfer", from, b.PartyHash(a.A), a.N, data)
+		if a.B == 7 {
+			// data is an array that contains itself: a value no serialiser accepts (nodes that save invocations try to)
+			emit.Opcodes(w.BinWriter, opcode.NEWARRAY0, opcode.DUP, opcode.DUP, opcode.APPEND)
+			emit.Int(w.BinWriter, a.N)
+			emit.Bytes(w.BinWriter, b.PartyHash(a.A).BytesBE())
+			emit.Bytes(w.BinWriter, from.BytesBE())
+			emit.Int(w.BinWriter, 4)
+			emit.Opcodes(w.BinWriter, opcode.PACK)
+			emit.AppCallNoArgs(w.BinWriter, tok, "transfer", callflag.All)
+		} else {
+			call(tok, "transfer", from, b.PartyHash(a.A), a.N, data)
+		}
 		// A failed transfer (false) must not halt silently as success of intent: assert to make FAULTs happen too when S="assert".
 		if a.S == "assert" {
 			emit.Opcodes(w.BinWriter, opcode.ASSERT)
@@ -218,6 +229,17 @@ func (b *Builder) MakeScript(a Action) ([]byte, []int, error) {
 			call(nativehashes.PolicyContract, a.S[:len(a.S)-9]+"Account", candKey(a.A).Hash)
 		case "setAttributeFee":
 			call(nativehashes.PolicyContract, a.S, int64(a.A), a.N)
+		case "setWhitelistFeeContract", "removeWhitelistFeeContract": // A = contract, K = method name, N = fee
+			if len(b.Deployed) == 0 {
+				return nil, nil, errors.New("no contract deployed")
+			}
+			d := b.Deployed[((a.A%len(b.Deployed))+len(b.Deployed))%len(b.Deployed)]
+			argc := map[string]int64{"put": 2, "get": 1, "notify": 1, "del": 1}[string(a.K)]
+			if a.S == "setWhitelistFeeContract" {
+				call(nativehashes.PolicyContract, a.S, d.Hash, string(a.K), argc, a.N)
+			} else {
+				call(nativehashes.PolicyContract, a.S, d.Hash, string(a.K), argc)
+			}
 		default:
 			call(nativehashes.PolicyContract, a.S, a.N)
 		}
@@ -303,7 +325,7 @@ func (b *Builder) MakeScript(a Action) ([]byte, []int, error) {
 			if a.B != 0 && i%int64(a.B+1) == 0 {
 				call(d.Hash, "del", k)
 			} else {
-				call(d.Hash, "put", k, []byte(a.V))
+				call(d.Hash, "put", k, append(append([]byte{}, a.V...), byte('a'+i%26))) // distinct values
 			}
 			emit.Opcodes(w.BinWriter, opcode.DROP)
 		}
